@@ -461,6 +461,162 @@ pub fn run(run: &Run) {
             }
         }
     });
+    // thread generations: 4 long-lived threads keep calling the library on their own inputs while 2000 (thorough: 20000) short-lived threads are started
+    // one after the other, each making 200 calls on its own inputs; every result against the result of the same call made
+    // single-threaded beforehand
+    {
+        let generations = run.pick(2000usize, 20000usize);
+        run.par("thread_generations", false, |tid, _n, l| {
+            if tid != 0 {
+                return;
+            }
+            let pool_chars: Vec<char> = (0xa0u32..0x3400).chain((0xf900..0x10000).step_by(3)).chain((0x1d400..0x1d800).step_by(5)).filter_map(char::from_u32).collect();
+            let mut seed = run.seed ^ 0x6331_3667;
+            let mut mk_set = || -> Vec<(Prof, String, RRes)> {
+                (0..20)
+                    .map(|_| {
+                        let p = PROFS[(splitmix(&mut seed) % 4) as usize];
+                        let c = pool_chars[(splitmix(&mut seed) % pool_chars.len() as u64) as usize];
+                        let s = if splitmix(&mut seed) % 3 == 0 { format!("a{c}") } else { c.to_string() };
+                        let want = imp_enforce(p, &s);
+                        (p, s, want)
+                    })
+                    .collect()
+            };
+            let stop = std::sync::atomic::AtomicBool::new(false);
+            let bad: std::sync::Mutex<Option<Violation>> = std::sync::Mutex::new(None);
+            let work = |set: &[(Prof, String, RRes)], rounds: usize, who: &str| -> u64 {
+                let mut calls = 0u64;
+                for _ in 0..rounds {
+                    for (p, s, want) in set {
+                        let got = imp_enforce(*p, s);
+                        calls += 1;
+                        if got != *want {
+                            let mut b = bad.lock().unwrap();
+                            if b.is_none() {
+                                *b = Some(Violation::new(
+                                    json!({"op": "thread_generations", "profile": p.name(), "call": "enforce", "a": jstr(s), "thread": who}),
+                                    format!("{} (the same call made single-threaded beforehand)", fmt_res(want)),
+                                    fmt_res(&got),
+                                ));
+                            }
+                            return calls;
+                        }
+                    }
+                }
+                calls
+            };
+            let long_sets: Vec<Vec<(Prof, String, RRes)>> = (0..4).map(|_| mk_set()).collect();
+            let total = std::sync::atomic::AtomicU64::new(0);
+            std::thread::scope(|s| {
+                for (i, set) in long_sets.iter().enumerate() {
+                    let (stop, work, total) = (&stop, &work, &total);
+                    s.spawn(move || {
+                        while !stop.load(std::sync::atomic::Ordering::Relaxed) {
+                            total.fetch_add(work(set, 2, &format!("long-lived {i}")), std::sync::atomic::Ordering::Relaxed);
+                        }
+                    });
+                }
+                for g in 0..generations {
+                    let set = mk_set();
+                    let work = &work;
+                    let calls = s.spawn(move || work(&set, 10, &format!("short-lived {g}"))).join().unwrap_or(0);
+                    total.fetch_add(calls, std::sync::atomic::Ordering::Relaxed);
+                    l.cases += 1;
+                    if bad.lock().unwrap().is_some() || run.stopped() {
+                        break;
+                    }
+                }
+                stop.store(true, std::sync::atomic::Ordering::Relaxed);
+            });
+            l.evals_n(total.load(std::sync::atomic::Ordering::Relaxed));
+            let found = bad.lock().unwrap().take();
+            if let Some(v) = found {
+                run.violate(v);
+            }
+        });
+    }
+    // calls made while a thread is being torn down (from the destructor of a caller's thread-local value registered before / after the
+    // thread's first library call): 128 threads, 24 calls each, against the same calls made beforehand
+    run.par("calls_during_thread_teardown", false, |tid, _n, l| {
+        if tid != 0 {
+            return;
+        }
+        let inputs = ["\u{aa}", "\u{fb01}e\u{301}", "\u{ff21}\u{ff42}", "\u{130}\u{316}", "Foo  Bar", "\u{2163}x", "\u{3a3}\u{3c2}", "e\u{301}\u{a0}z", "\u{5d0}1", "a\u{200c}", "\u{4ff1}", "\u{1d400}"];
+        let mut want: Vec<(Prof, String, RRes)> = Vec::new();
+        for p in PROFS {
+            for s in inputs {
+                want.push((p, s.to_string(), imp_enforce(p, s)));
+            }
+        }
+        let want = std::sync::Arc::new(want);
+        let found: std::sync::Arc<std::sync::Mutex<Vec<(usize, String, bool)>>> = Default::default();
+        let calls = std::sync::Arc::new(std::sync::atomic::AtomicU64::new(0));
+        for k in 0..128usize {
+            let before = k % 2 == 0;
+            let (w2, f2, c2) = (want.clone(), found.clone(), calls.clone());
+            let hook = move || {
+                let r = std::panic::catch_unwind(std::panic::AssertUnwindSafe(|| {
+                    for j in 0..24 {
+                        let i = (k * 7 + j * 5) % w2.len();
+                        let got = imp_enforce(w2[i].0, &w2[i].1);
+                        c2.fetch_add(1, std::sync::atomic::Ordering::Relaxed);
+                        if got != w2[i].2 {
+                            f2.lock().unwrap().push((i, fmt_res(&got), before));
+                            return;
+                        }
+                    }
+                }));
+                if r.is_err() {
+                    f2.lock().unwrap().push(((k * 7) % w2.len(), "panic inside the call".to_string(), before));
+                }
+            };
+            let w3 = want.clone();
+            let _ = std::thread::spawn(move || {
+                let mut hook = Some(hook);
+                if before {
+                    at_thread_exit(Box::new(hook.take().unwrap()));
+                }
+                for j in 0..6 {
+                    let i = (k * 11 + j) % w3.len();
+                    std::hint::black_box(imp_enforce(w3[i].0, &w3[i].1).is_ok());
+                }
+                if let Some(h) = hook.take() {
+                    at_thread_exit(Box::new(h));
+                }
+            })
+            .join();
+            l.cases += 1;
+            if let Some((i, got, before)) = found.lock().unwrap().first().cloned() {
+                run.violate(Violation::new(
+                    json!({"op": "thread_generations", "profile": want[i].0.name(), "call": "enforce", "a": jstr(&want[i].1), "thread": format!("destructor of a thread-local value, registered {} the thread's first library call", if before { "before" } else { "after" })}),
+                    format!("{} (the same call made beforehand)", fmt_res(&want[i].2)),
+                    got,
+                ));
+                break;
+            }
+        }
+        l.evals_n(calls.load(std::sync::atomic::Ordering::Relaxed));
+    });
+    // the same fixed battery of calls in child processes under ~50 process environments (locale variables, cleared environment,
+    // other working directory): every answer must equal the answer of the same call made here
+    {
+        let envs = super::envchild::environments();
+        let mine = super::envchild::results();
+        let (envs, mine) = (&envs, &mine);
+        run.par("environment_children", true, |tid, n, l| {
+            for (i, (clear, vars)) in envs.iter().enumerate() {
+                if i % n != tid {
+                    continue;
+                }
+                l.cases += 1;
+                if let Err(v) = super::envchild::check_env(*clear, vars, &|k| Some(mine[k].clone()), l) {
+                    run.violate(v);
+                    return;
+                }
+            }
+        });
+    }
     // children run one after the other: each one uses all cores itself (16 racing threads, then 12 spinning threads)
     let children = run.pick(24u64, 600u64);
     run.par("first_use_race", false, |tid, _n, l| {
@@ -488,6 +644,15 @@ pub fn replay(_run: &Run, case: &Value) -> Check {
         Some("history") => {
             let h: Vec<Step> = case["steps"].as_array().unwrap().iter().map(|s| (s[0].as_u64().unwrap() as usize, s[1].as_u64().unwrap() as usize, s[2].as_u64().unwrap() as usize, s[3].as_str().unwrap().to_string(), s[4].as_str().unwrap().to_string())).collect();
             check_history(&h, &mut l)
+        }
+        Some("thread_generations") => {
+            // the concurrent history is not part of the file: re-evaluate the call against a fresh instance on a new thread
+            let p = Prof::from_name(case["profile"].as_str().unwrap()).unwrap();
+            check_forms(p, Kind::Enforce, &jget_str(case, "a").unwrap(), "", &mut l)
+        }
+        Some("environment") => {
+            let mine = super::envchild::results();
+            super::envchild::replay_env(case, &|k| Some(mine[k].clone()))
         }
         Some("first_use_race") => check_race(case["seed"].as_u64().unwrap(), &mut l),
         _ => panic!("unknown C16 case"),
